@@ -24,6 +24,11 @@ pub fn knobs_for(mode: &str, idx: u64, a: &Args, r: &mut Rng) -> Knobs {
                 k.width_focus = Some(((idx / 7) % 65) as usize);
             }
             k.max_records = if thorough && r.chance(1, 10) { 64 } else { 24 };
+            if idx % 64 == 5 {
+                k.full_packets = true;
+                k.max_records = 1 + ((idx / 64) % 6) as usize;
+                k.max_items = 2;
+            }
         }
         "c04" => {
             k.meta_heavy = true;
@@ -45,6 +50,11 @@ pub fn knobs_for(mode: &str, idx: u64, a: &Args, r: &mut Rng) -> Knobs {
             k.max_items = 4;
             k.wild_ext = r.chance(1, 3);
             k.big_points = r.chance(1, 10);
+            if idx % 64 == 5 {
+                k.full_packets = true;
+                k.max_records = 1 + ((idx / 64) % 6) as usize;
+                k.max_items = 2;
+            }
         }
         "c18" => {
             // extension attributes over all accepted names / namespaces, also named like standard ones
